@@ -173,11 +173,27 @@ func (r Iterator[T]) TakeWhile(p func(T) bool) Iterator[T] {
 
 func (r Iterator[T]) Drop(n int) Iterator[T] {
 
-	for i := 0; i < n && r.HasNext(); i++ {
-		r.Next()
+	dropped := false
+	drop := func() {
+		if !dropped {
+			// skip the first n elements on first demand, not when Drop is called
+			dropped = true
+			for i := 0; i < n && r.HasNext(); i++ {
+				r.Next()
+			}
+		}
 	}
 
-	return r
+	return MakeIterator(
+		func() bool {
+			drop()
+			return r.HasNext()
+		},
+		func() T {
+			drop()
+			return r.Next()
+		},
+	)
 }
 
 func (r Iterator[T]) DropWhile(p func(T) bool) Iterator[T] {
